@@ -332,11 +332,11 @@ def run(ctx):
             cases.append((q, info, obs, inp))
         if len(samples) < 6:
             samples.append(dict(tags=tg, dt=[float(x) for x in q.dt], tau=float(obs['tau1']), n_queries=int(len(obs['tqs']))))
-    defs = [('c%d' % i, coq_case('c%d' % i, q, info, obs, False)) for i, (q, info, obs, _) in enumerate(cases)]
+    defs = [('case%d' % i, coq_case('case%d' % i, q, info, obs, False)) for i, (q, info, obs, _) in enumerate(cases)]
     res = ctx.eval_tallies(HEADER, defs, per_file=4)
     redo = [i for i, x in enumerate(res) if x is None or x[1] > 0]
     if redo:
-        defs2 = [('c%d' % i, coq_case('c%d' % i, cases[i][0], cases[i][1], cases[i][2], True)) for i in redo]
+        defs2 = [('case%d' % i, coq_case('case%d' % i, cases[i][0], cases[i][1], cases[i][2], True)) for i in redo]
         res2 = ctx.eval_tallies(HEADER, defs2, per_file=1)
         for i, x in zip(redo, res2):
             if x is not None:
